@@ -176,6 +176,9 @@ func (e *eng) genBody(max int) []byte {
 func (e *eng) genResp(method string) respPlan {
 	tp := e.tp
 	r := respPlan{Status: []int{200, 200, 200, 201, 204, 304, 404, 500, 503, 301}[tp.Draw(10, "status")]}
+	if e.accEnc && tp.Chance(2, 3, "status_ok_for_compress") {
+		r.Status = 200 // C54: most responses should be ones the compress module acts on
+	}
 	r.Fields = []href.Field{{"X-Backend-Id", fmt.Sprintf("v%d", tp.Draw(1000, "hdr_val"))}}
 	if tp.Chance(1, 3, "resp_dup_hdr") {
 		r.Fields = append(r.Fields, href.Field{"Set-Cookie", "a=1"}, href.Field{"Set-Cookie", "b=2; Path=/"})
@@ -189,6 +192,9 @@ func (e *eng) genResp(method string) respPlan {
 	bodyless := r.Status == 204 || r.Status == 304
 	if !bodyless {
 		r.Body = e.genBody([]int{0, 10, 300, 5000}[tp.Draw(4, "resp_body_class")])
+		if e.accEnc && len(r.Body) < 300 && tp.Chance(2, 3, "body_for_compress") {
+			r.Body = e.genBody(300 + tp.Draw(20000, "compress_body"))
+		}
 	}
 	switch tp.Draw(3, "resp_framing") {
 	case 0:
@@ -296,7 +302,9 @@ func (e *eng) genReq(id, conn int) *reqPlan {
 		}
 	}
 	if e.accEnc {
-		if v := []string{"", "gzip", "br", "gzip, br", "identity", "deflate", "gzip;q=0", "gzip;q=0.0", "br;q=0.00, gzip", "gzip;q=0.000, br;q=0.0", "gzip;Q=0, br;q=0", "gzip;q=0.5, br;q=0.1", "GZIP", "*;q=0"}[tp.Draw(14, "accept_encoding")]; v != "" {
+		if tp.Chance(1, 2, "accept_encoding.plain") {
+			p.Fields = append(p.Fields, href.Field{"Accept-Encoding", []string{"gzip", "br", "gzip, br"}[tp.Draw(3, "accept_encoding.plain_v")]})
+		} else if v := []string{"", "gzip", "br", "gzip, br", "identity", "deflate", "gzip;q=0", "gzip;q=0.0", "br;q=0.00, gzip", "gzip;q=0.000, br;q=0.0", "gzip;Q=0, br;q=0", "gzip;q=0.5, br;q=0.1", "GZIP", "*;q=0"}[tp.Draw(14, "accept_encoding")]; v != "" {
 			p.Fields = append(p.Fields, href.Field{"Accept-Encoding", v})
 		}
 	}
